@@ -2173,6 +2173,14 @@ copyOneHeaderFromClientsideRequestToUpstreamRequest(const HttpHeaderEntry *e, co
 {
     debugs(11, 5, "httpBuildRequestHeader: " << e->name << ": " << e->value );
 
+    // RFC 9110 section 7.6.1: do not forward any field nominated by the
+    // received Connection header. Content-Length is exempt (see its case below).
+    if (e->id != Http::HdrType::CONTENT_LENGTH &&
+            strConnection.size() > 0 && strListIsMember(&strConnection, e->name, ',')) {
+        debugs(11, 2, "'" << e->name << "' header cropped by Connection: definition");
+        return;
+    }
+
     switch (e->id) {
 
     /** \par RFC 2616 sect 13.5.1 - Hop-by-Hop headers which Squid should not pass on. */
@@ -2336,12 +2344,7 @@ copyOneHeaderFromClientsideRequestToUpstreamRequest(const HttpHeaderEntry *e, co
     default:
         /** \par default.
          * pass on all other header fields
-         * which are NOT listed by the special Connection: header. */
-        if (strConnection.size()>0 && strListIsMember(&strConnection, e->name, ',')) {
-            debugs(11, 2, "'" << e->name << "' header cropped by Connection: definition");
-            return;
-        }
-
+         * (those listed by the special Connection: header were dropped above). */
         hdr_out->addEntry(e->clone());
     }
 }
